@@ -222,7 +222,12 @@ class World:
         # no files, no mDNS: these are outside the property
         d.persist = lambda: None
         d.async_persist = lambda: None
-        d.finish_pair = lambda: None
+        self.finish_pair_calls = 0  # advertisement refreshes requested after a pairing change
+
+        def _finish_pair():
+            world.finish_pair_calls += 1
+
+        d.finish_pair = _finish_pair
         d.update_advertisement = lambda: None
         d.async_update_advertisement = lambda: None
         d.aio_stop_event = asyncio.Event()  # what async_start creates; event delivery consults it
